@@ -743,11 +743,11 @@ SITES = {
 
 
 def run(prop, mir, src, ob):
-    import mirblocks, mirflow, mirpaths
+    import mirblocks, mirflow, mirpaths, mirload
     a = Agg(mir, src, ob)
     for s in SITES.get(prop, []):
         getattr(a, s)()
-    for f in mirblocks.SITES.get(prop, []) + mirflow.SITES.get(prop, []) + mirpaths.SITES.get(prop, []):
+    for f in mirblocks.SITES.get(prop, []) + mirflow.SITES.get(prop, []) + mirpaths.SITES.get(prop, []) + mirload.SITES.get(prop, []):
         try:
             f(a)
         except Untranslatable as e:
@@ -758,5 +758,5 @@ def run(prop, mir, src, ob):
 
 
 def has_sites(prop):
-    import mirblocks, mirflow, mirpaths
-    return prop in SITES or prop in mirblocks.SITES or prop in mirflow.SITES or prop in mirpaths.SITES
+    import mirblocks, mirflow, mirpaths, mirload
+    return prop in SITES or prop in mirblocks.SITES or prop in mirflow.SITES or prop in mirpaths.SITES or prop in mirload.SITES
